@@ -324,6 +324,8 @@ func init() {
 		switch a[0].(string) {
 		case "exact-small-floats":
 			p.exactSmallFloats = true
+		case "interpret-format-int":
+			p.smallInts = true
 		case "format-errors":
 			p.formatErrors = true
 		}
@@ -424,6 +426,7 @@ func (p *Path) assertion(cond Value, label Value) {
 			p.violation(lab, "assertion is false on this path")
 		}
 	case *smt.Term:
+		c = p.simplify(c)
 		if b, ok := c.BoolVal(); ok {
 			if !b {
 				p.violation(lab, "assertion is false on this path")
